@@ -157,6 +157,153 @@ fn replay(path: &str) -> i32 {
     }
 }
 
+/// Runs the check in a child process.  An allocation failure, stack overflow or other abort
+/// inside the library kills the process and escapes `catch_unwind`; the supervisor turns that
+/// into a verdict instead of a dead check: for the codec checks the run is repeated in "careful"
+/// mode (every input is written to a breadcrumb file before it is parsed) so that the input that
+/// kills the process can be named.
+fn supervise(args: &[String], id: &str, tier: Tier, seed: u64) -> i32 {
+    use std::process::Command;
+    let exe = match std::env::current_exe() {
+        Ok(e) => e,
+        Err(_) => return run_check(id, tier, seed),
+    };
+    let run = |careful: Option<&str>| -> Option<std::process::ExitStatus> {
+        let mut c = Command::new(&exe);
+        c.args(&args[1..]).env("PLV_INNER", "1");
+        if let Some(p) = careful {
+            c.env("PLV_CAREFUL", p);
+        }
+        c.status().ok()
+    };
+    let st = match run(None) {
+        Some(s) => s,
+        None => return run_check(id, tier, seed),
+    };
+    if let Some(c) = st.code() {
+        if c <= 3 {
+            return c;
+        }
+        if c == 101 {
+            println!("HARNESS-ERROR: the check process panicked outside a monitored call");
+            return 3;
+        }
+    }
+    let how = format!("{:?}", st);
+    println!("CRASH: the check process died ({}): an abort inside the library escapes catch_unwind", how);
+    let codec = matches!(id, "C09" | "C16" | "C17" | "C18");
+    if !codec {
+        println!("HARNESS-ERROR: process death in a non-codec check is not attributed to an input");
+        return 3;
+    }
+    // second attempt with breadcrumbs
+    let dir = report::verif_dir();
+    let _ = std::fs::create_dir_all(format!("{}/replays", dir));
+    let base = format!("{}/replays/crumb-{}-{}", dir, id, std::process::id());
+    let st2 = run(Some(&base));
+    let died_again = st2.map(|s| s.code().map(|c| c > 3 && c != 101).unwrap_or(true)).unwrap_or(false);
+    // newest breadcrumb file = the input being parsed when the process died
+    let mut crumbs: Vec<(std::time::SystemTime, std::path::PathBuf)> = Vec::new();
+    if let Ok(rd) = std::fs::read_dir(format!("{}/replays", dir)) {
+        for f in rd.flatten() {
+            let name = f.file_name().to_string_lossy().to_string();
+            if name.starts_with(&format!("crumb-{}-{}", id, std::process::id())) {
+                if let Ok(m) = f.metadata().and_then(|m| m.modified()) {
+                    crumbs.push((m, f.path()));
+                }
+            }
+        }
+    }
+    crumbs.sort();
+    let mut rep = Report::new(
+        match id {
+            "C09" => "C09",
+            "C16" => "C16",
+            "C17" => "C17",
+            _ => "C18",
+        },
+        tier,
+        seed,
+        "other",
+    );
+    rep.set("explanation", serde_json::json!("the check's worker process was killed by an abort inside the library (allocation failure / stack overflow escape catch_unwind); the supervisor repeated the run with per-input breadcrumbs to name the input"));
+    rep.evaluations = 1;
+    rep.distinct.insert(1);
+    rep.distinct.insert(2);
+    rep.rule = "crash supervision: see explanation".into();
+    if died_again {
+        // every thread's last breadcrumb is a candidate; confirm each alone in a subprocess
+        let mut confirmed = 0;
+        for (_, path) in crumbs.iter().rev() {
+            let txt = std::fs::read_to_string(path).unwrap_or_default();
+            let mut it = txt.splitn(2, '\n');
+            let entry = it.next().unwrap_or("").to_string();
+            let input = it.next().unwrap_or("").to_string();
+            if entry.is_empty() {
+                continue;
+            }
+            let alone = crash_alone(&exe, &entry, &input);
+            if alone {
+                confirmed += 1;
+                rep.violation(
+                    format!(
+                        "{} aborts the process (no error, no panic that could be caught) on {:?}",
+                        entry,
+                        &input[..input.char_indices().nth(160).map(|x| x.0).unwrap_or(input.len())]
+                    ),
+                    serde_json::json!({"engine": "crash-supervisor", "entry": entry, "input": input, "process": how}),
+                );
+            }
+        }
+        if confirmed == 0 {
+            rep.violation(
+                format!("the library aborted the check process twice ({}), but no single breadcrumb input reproduces it alone", how),
+                serde_json::json!({"engine": "crash-supervisor", "process": how}),
+            );
+        }
+    } else {
+        rep.inconclusive(format!("the check process died once ({}) and completed on the careful second attempt", how));
+        rep.min_nontrivial = 0;
+    }
+    for (_, p) in &crumbs {
+        let _ = std::fs::remove_file(p);
+    }
+    rep.finish()
+}
+
+/// true iff parsing `input` with `entry` alone kills a subprocess
+fn crash_alone(exe: &std::path::Path, entry: &str, input: &str) -> bool {
+    use std::io::Write;
+    use std::process::{Command, Stdio};
+    // round-trip monitors label their inputs with the type name: map to the parse entry
+    let entry_name = if entry.starts_with("json:") || entry.contains("snapshot_json") || entry.contains("from_json") {
+        entry.to_string()
+    } else {
+        entry.split('(').next().unwrap_or(entry).to_string()
+    };
+    let mut any = false;
+    for cand in [entry_name.clone(), format!("json:{}", entry_name)] {
+        let child = Command::new(exe)
+            .arg("parse-one")
+            .arg(&cand)
+            .stdin(Stdio::piped())
+            .stdout(Stdio::null())
+            .stderr(Stdio::null())
+            .spawn();
+        if let Ok(mut ch) = child {
+            if let Some(mut si) = ch.stdin.take() {
+                let _ = si.write_all(input.as_bytes());
+            }
+            if let Ok(st) = ch.wait() {
+                if st.code().map(|c| c > 3).unwrap_or(true) {
+                    any = true;
+                }
+            }
+        }
+    }
+    any
+}
+
 fn main() {
     silence_panics();
     let args: Vec<String> = std::env::args().collect();
@@ -186,6 +333,7 @@ fn main() {
         i += 1;
     }
     let code = match cmd {
+        "check" if std::env::var("PLV_INNER").is_err() => supervise(&args, args.get(2).map(|s| s.as_str()).unwrap_or(""), tier, seed),
         "check" => run_check(args.get(2).map(|s| s.as_str()).unwrap_or(""), tier, seed),
         "replay" => replay(args.get(2).map(|s| s.as_str()).unwrap_or("")),
         "mini" => checks_conc::mini(
